@@ -19,6 +19,8 @@ def DrvSt.init : DrvSt := {}
 def stepLine (s : DrvSt) (toks : List String) : DrvSt × String :=
   match toks with
   | ["cfg", _, c] => ({ cancel := c == "true", mon := some Mon.init }, "ok")
+  | "run" :: _ => (s, "ok")
+  | ["group", "stub"] => (s, "ok")
   | ["quiet"] =>
     match s.mon with
     | some m => (s, if quietOk s.cancel m then "accept" else "reject quiet")
